@@ -784,6 +784,7 @@ Definition step_line (st : dstate) (ts : list tok) : dstate * list bytes :=
         | _ => (st, bad)
         end
       else if tok_is cmd "RESET" then (dinit, [])
+      else if tok_is cmd "MODE" then (st, [])     (* sign mode of the following transactions: no effect on the model *)
       else if tok_is cmd "CK" then (st, ck_cmd st args)
       else match chain_cmd st cmd args with
            | Some r => r
